@@ -137,12 +137,12 @@ def run_case(case):
     real_single = iface.run_bldfm_single
     delays = {}
 
-    def wrapped(config, tower, met_index=0, surface_flux=None, cache=None):
+    def wrapped(config, tower, met_index=0, *args, **kwargs):  # signature-agnostic: extra optional arguments pass through
         t0 = time.time()
         d = delays.get((tower.name, met_index), 0.0)
         if d:
             time.sleep(d)
-        r = real_single(config, tower, met_index=met_index, surface_flux=surface_flux, cache=cache)
+        r = real_single(config, tower, met_index, *args, **kwargs)
         rec = {"pid": os.getpid(), "tower": tower.name, "step": met_index, "t0": t0, "t1": time.time()}
         fd = os.open(logf, os.O_WRONLY | os.O_APPEND | os.O_CREAT)
         os.write(fd, (json.dumps(rec) + "\n").encode())
